@@ -63,6 +63,7 @@ func verifTable() (unsafe.Pointer, int)
 type slot struct {
 	pc, r                   uintptr
 	n, nmulti, maxcnt, maxB uint64
+	neff                    uint64
 }
 
 const (
@@ -129,6 +130,7 @@ type Out struct {
 	Self     string `json:",omitempty"`
 	HeapMB   int
 	CPUms    int
+	Eff      uint64 // iterations (>= 2 elements) whose start differed from the r=0 start
 }
 
 func sha(b []byte) string { h := sha256.Sum256(b); return hex.EncodeToString(h[:12]) }
@@ -260,6 +262,11 @@ func handleJob(raw json.RawMessage) interface{} {
 		if j.Twice {
 			d2 := digest(compileOnce(p, j.CorpusDir))
 			out.D2 = &d2
+		}
+	}
+	if ctl {
+		for _, s := range slots() {
+			out.Eff += s.neff
 		}
 	}
 	if ctl && (j.Sites || j.Kind == "selftest") {
@@ -439,17 +446,18 @@ type mismatch struct {
 }
 
 type explorer struct {
-	r       *mc.Run
-	dir     string
-	pools   map[int]*mc.Pool // by hash constant; 0 = stock
-	stock2  *mc.Pool
-	base    []Out     // per program: baseline (constant 1), full outputs
-	sites   [][]*site // per program (constant 1 baseline)
-	mu      sync.Mutex
-	mism    []mismatch
-	heapMax int
-	cpuMs   int64
-	horizon time.Duration
+	r           *mc.Run
+	dir         string
+	pools       map[int]*mc.Pool // by hash constant; 0 = stock
+	stock2      *mc.Pool
+	base        []Out     // per program: baseline (constant 1), full outputs
+	sites       [][]*site // per program (constant 1 baseline)
+	mu          sync.Mutex
+	mism        []mismatch
+	heapMax     int
+	cpuMs       int64
+	ineffective int
+	horizon     time.Duration
 }
 
 func (e *explorer) job(s sched, full bool) Job {
@@ -473,10 +481,19 @@ func decode(res mc.Result) (Out, string) {
 
 // runAll runs the schedules on the pool of their hash constant and collects mismatches against
 // the baseline of the program.
-func (e *explorer) runAll(k int, list []sched) {
-	if len(list) == 0 {
-		return
+func (e *explorer) runAll(k int, all []sched) {
+	// batches, so that the internal deadline can stop the exploration (exhaustive=false then)
+	const batch = 512
+	for lo := 0; lo < len(all); lo += batch {
+		if e.r.Expired() {
+			e.r.Cap("deadline")
+			return
+		}
+		e.runBatch(k, all[lo:min(lo+batch, len(all))])
 	}
+}
+
+func (e *explorer) runBatch(k int, list []sched) {
 	e.pools[k].Run(len(list), func(i int) interface{} { return e.job(list[i], false) }, e.horizon, func(res mc.Result) {
 		s := list[res.Index]
 		e.r.Evals.Add(1)
@@ -494,6 +511,14 @@ func (e *explorer) runAll(k int, list []sched) {
 			e.heapMax = max(e.heapMax, o.HeapMB)
 			e.cpuMs += int64(o.CPUms)
 			e.mu.Unlock()
+			if o.Eff > 0 {
+				// non-trivial schedule: at least one iteration over >= 2 elements started elsewhere than in the baseline
+				e.r.Distinct(fmt.Sprintf("sched|%d|%d|%v|%v", s.Prog, s.K, s.Sites, s.Rs))
+			} else {
+				e.mu.Lock()
+				e.ineffective++
+				e.mu.Unlock()
+			}
 			if o.D.same(e.base[s.Prog].D) {
 				return
 			}
@@ -667,13 +692,16 @@ func main() {
 	r := mc.Start("C27")
 	r.Rule("schedule = (hash constant k in 1..3; iteration start r per static `for range <map>` site); bound 0: all r=0 under every k; " +
 		"bound 1: every site reached while compiling x every r in R deviates alone; bound 2 (thorough): every pair of order-capable sites x R2 x R2; " +
-		"plus stock-randomness double compile in one process and in two processes. Outcome = (sha256 WAT, sha256 wasm, sha256 FileSet JSON) per program; all must equal the baseline")
+		"plus stock-randomness double compile in one process and in two processes. A schedule counts as distinct/non-trivial when at least one iteration over >= 2 elements started at another (bucket, offset) than in the baseline (measured in the runtime). Outcome = (sha256 WAT, sha256 wasm, sha256 FileSet JSON) per program; all must equal the baseline")
 	rs := mc.Pick(r, rBound1Quick, rBound1Thorough)
 	ks := mc.Pick(r, []int{1}, []int{1, 2, 3})
 	r.Bound("programs", len(corpus))
 	r.Bound("hash_constants_bound0", 3)
 	r.Bound("hash_constants_bound1", len(ks))
 	r.Bound("r_values_bound1", rs)
+	if r.Thorough() {
+		r.Bound("r_values_bound1_hash_constants_2_3", rBound1Quick)
+	}
 	r.Bound("deviation_bound", mc.Pick(r, 1, 2))
 	if r.Thorough() {
 		r.Bound("r_values_bound2", rBound2)
@@ -818,7 +846,6 @@ func main() {
 		if e.base[i].D.Wat == "" {
 			fail("no baseline for %s", corpus[i].Name)
 		}
-		r.Distinct("out|" + e.base[i].D.Wat + e.base[i].D.Wasm + e.base[i].D.Fset)
 		var recs []SiteRec
 		for _, rc := range e.base[i].Sites {
 			if !excludedSite(rc.Func) {
@@ -856,7 +883,6 @@ func main() {
 				pc.SitesOrderCapable++
 			}
 			pc.Iterations += s.N
-			r.Distinct("site|" + s.Key)
 			if a := allSites[s.Key]; a == nil {
 				c := *s
 				allSites[s.Key] = &c
@@ -871,7 +897,7 @@ func main() {
 			r.HarnessError("vacuous: program %s reached only %d compiler sites (%d order-capable)", corpus[i].Name, pc.SitesWa, pc.SitesOrderCapable)
 		}
 	}
-	r.Extra("programs", cov)
+	r.Extra("corpus", cov)
 	var siteList []map[string]interface{}
 	var keys []string
 	for k := range allSites {
@@ -906,7 +932,11 @@ func main() {
 					}
 					continue
 				}
-				for _, rv := range rs {
+				rk := rs
+				if k != ks[0] {
+					rk = rBound1Quick
+				}
+				for _, rv := range rk {
 					list = append(list, sched{Prog: i, K: k, Sites: []int{si}, Rs: []uint64{rv}, Phase: "bound1"})
 				}
 			}
@@ -993,6 +1023,7 @@ func main() {
 	r.Extra("stock_randomness_compiles", 4*np)
 	r.Extra("worker_mem_sys_mb_max", e.heapMax)
 	r.Extra("bound_phases_worker_cpu_s", float64(e.cpuMs)/1000)
+	r.Extra("schedules_without_effective_deviation", e.ineffective)
 
 	e.classify()
 	r.Sample(map[string]interface{}{"program": corpus[0].Name, "baseline": e.base[0].D, "sites": len(e.sites[0])})
